@@ -118,7 +118,15 @@ func loadProgram(repo string, verifDir string) (*program, error) {
 			return nil, fmt.Errorf("contract %s implements unknown contract %s", key, fc.implements)
 		}
 		fc.requires = append(append([]*clause{}, base.requires...), fc.requires...)
-		fc.ensures = append(append([]*clause{}, base.ensures...), fc.ensures...)
+		var inherited []*clause
+		for _, e := range base.ensures {
+			// `[assumed:...]` clauses of an interface contract are assumptions about all implementations, stated where the
+			// interface is called; they are not re-stated (nor checked) per implementation
+			if !strings.HasPrefix(e.tag, "assumed:") {
+				inherited = append(inherited, e)
+			}
+		}
+		fc.ensures = append(inherited, fc.ensures...)
 		if fc.assigns == nil {
 			fc.assigns = base.assigns
 		}
